@@ -16,6 +16,7 @@ import HcModel.Drv.Ids
 import HcModel.Drv.Framing
 import HcModel.Drv.PinXhm
 import HcModel.Drv.Config
+import HcModel.Drv.CloseRace
 /-
   Line-protocol driver of the executable models: one operation per input line
   (`<module> <op> <args…>`), one result per output line. Core Lean only, so it links as `lean_exe`.
@@ -41,6 +42,7 @@ def step (line : String) : String :=
   | "tlvs" :: rest => Hc.Drv.Tlv8Struct.handle rest
   | "plain" :: rest => Hc.Drv.PlainFraming.handle rest
   | "sess" :: rest => Hc.Drv.SessLookup.handle rest
+  | "closerace" :: rest => Hc.Drv.CloseRace.handle rest
   | "handover" :: rest => Hc.Drv.Handover.handle rest
   | "spec" :: rest => Hc.Drv.Spec.handle rest
   | "storage" :: rest => Hc.Drv.Storage.handle rest
